@@ -101,6 +101,12 @@ pub fn thread_file(tag: &str) -> PathBuf {
 /// Build the real graph of a right tree: node i gets id `ids[i]`.
 pub fn build_tree<const N: usize>(h: &HTree, ids: &[usize], cap: usize) -> Sodg<N> {
     let mut g: Sodg<N> = Sodg::empty(cap);
+    build_tree_into(&mut g, h, ids);
+    g
+}
+
+/// The same into an existing graph (which may have lived before: recycled slots).
+pub fn build_tree_into<const N: usize>(g: &mut Sodg<N>, h: &HTree, ids: &[usize]) {
     for i in 0..h.size() {
         g.add(ids[i]);
     }
@@ -114,7 +120,6 @@ pub fn build_tree<const N: usize>(h: &HTree, ids: &[usize], cap: usize) -> Sodg<
             g.put(ids[i], &dat(d));
         }
     }
-    g
 }
 
 /// The real right graph of the Merge transition inside HX: ids 1.., cap size+2.
